@@ -271,8 +271,9 @@ def _check(mod: Any, pid: str, tier: str, base_seed: int, workers: int, budget: 
     for h in harness_errors:
         print('HARNESS-ERROR: %s' % h)
     kf_by_id = {k['id']: k for k in kfs}
-    for kid, n in sorted(known.items()):
-        print('KNOWN-FINDING: property=%s %s [%s, %d runs]' % (pid, kf_by_id[kid]['what_fails'], kid, n))
+    for kid in sorted(set(known) | {k['id'] for k in kfs if k.get('status') == 'open'}):
+        # every listed open finding is named on every run; the count says how many runs of this batch met it
+        print('KNOWN-FINDING: property=%s %s [%s, %d runs]' % (pid, kf_by_id[kid]['what_fails'], kid, known.get(kid, 0)))
     for path, msg in reported:
         print('VIOLATION property=%s replay=%s' % (pid, path))
         print('  %s' % msg[:500])
